@@ -213,7 +213,7 @@ def worker(ctx):
         return t
 
     n = ctx.n(16000, 200000) // ctx.nworkers + 1
-    ctx.run_hypothesis(make_equiv, n, replay_fn=replay_case)
+    ctx.run_hypothesis(make_equiv, n, replay_fn=replay_case, share=0.5)
     ctx.run_hypothesis(make_derail, n, replay_fn=replay_case)
     try:
         drv.stop()
